@@ -347,6 +347,8 @@ def canaries(tier):
          'patches': [('torchsde._core.misc', "    return all(x < y for x, y in zip(ts[:-1], ts[1:]))", "    return all(x <= y for x, y in zip(ts[:-1], ts[1:]))")]},
         {'name': 'default-ito-general-is-srk', 'job': 'forward-matrix',
          'patches': [(S, "                NOISE_TYPES.general: METHODS.euler\n", "                NOISE_TYPES.general: METHODS.srk\n")]},
-        {'name': 'adjoint-milstein-silently-uses-diagonal-formula', 'job': 'adjoint-matrix',
-         'patches': [('torchsde._core.adjoint_sde', "        }.get(forward_sde.noise_type, self.g_prod_and_gdg_prod_default)", "        }.get(forward_sde.noise_type, self.g_prod_and_gdg_prod_diagonal)")]},
+        {'name': 'adjoint_reversible_heun-accepted-as-forward-method', 'job': 'forward-matrix',
+         'patches': [('torchsde._core.methods.reversible_heun', "        if not isinstance(sde, adjoint_sde.AdjointSDE):\n            raise ValueError(", "        if False:\n            raise ValueError(")]},
+        {'name': 'adjoint-default-ito-diagonal-is-euler', 'job': 'adjoint-matrix',
+         'patches': [('torchsde._core.adjoint', "                NOISE_TYPES.diagonal: METHODS.milstein,\n", "                NOISE_TYPES.diagonal: METHODS.euler,\n")]},
     ]
